@@ -52,6 +52,8 @@ PROFILES = {
     "unprintable": st.one_of(K, K, GR("repr")),
     "inexact": st.one_of(INEXACT_FLOATS, INEXACT_FLOATS, st.integers(-2, 5).map(lambda n: ["i", n])),
     "item": K,
+    # sums whose RESULT is an awaitable object (deferred values): a sum is data, whoever adds does not await it
+    "aw-add": st.one_of(st.just(("AW",)), st.just(("AW",)), st.integers(0, 3).map(lambda n: ["i", n])),
     # not a total order: NaN among floats (one NaN object, possibly several times) - what a comparison sort or a
     # running minimum makes of it depends on the exact sequence of comparisons, which is the stdlib's
     "partial": st.one_of(st.integers(-4, 8).map(lambda n: ["f", n / 2]), st.integers(-4, 8).map(lambda n: ["f", n / 2]),
